@@ -1613,6 +1613,14 @@ class AutoImporter:
             # when trying to check whether the code is complete.
             reset_auto_importer_state.has_side_effect = True
             ip.input_transformers_cleanup.append(reset_auto_importer_state)
+            def unregister_reset_hook():
+                try:
+                    ip.input_transformers_cleanup.remove(
+                        reset_auto_importer_state)
+                except ValueError:
+                    logger.info(
+                        "Couldn't remove input_transformers_cleanup hook")
+            self._disablers.append(unregister_reset_hook)
             return True
         elif hasattr(ip, "input_transformer_manager"):
             # Tested with IPython 1.0, 1.2, 2.0, 2.1, 2.2, 2.3, 2.4, 3.0, 3.1,
